@@ -84,8 +84,12 @@ theorem tRegexError_erase (st : LexState) (p : Nat) :
 theorem getLexerToken_erase (s : LexerState) (st : LexState) :
     getLexerToken s (eraseSt st) = eraseRes (getLexerToken s st) := by
   unfold getLexerToken
-  simp only [eraseSt_text, eraseSt_lexpos]
-  cases h : plyToken s st.text st.lexpos with
+  have hap : afterPeriod (eraseSt st) = afterPeriod st := by
+    unfold afterPeriod
+    rw [eraseSt_curReal]
+    cases st.curTokenReal <;> rfl
+  simp only [eraseSt_text, eraseSt_lexpos, hap]
+  cases h : plyToken s st.text st.lexpos (afterPeriod st) with
   | eof p => rfl
   | modelGap r => rfl
   | error p =>
